@@ -178,10 +178,11 @@ static Arena g_arena;
 static bool g_markMovedFrom = false;
 class Mgr {
 public:
-	explicit Mgr(Arena* a, int t = 0) noexcept : ar(a), tag(t) {}
-	Mgr(Mgr&& m) noexcept : ar(m.ar), tag(m.tag) { if (g_markMovedFrom) m.tag = -1; }
-	Mgr(const Mgr& m) noexcept : ar(m.ar), tag(m.tag) {}
-	~Mgr() noexcept {}
+	explicit Mgr(Arena* a, int t = 0) noexcept : ar(a), tag(t) { ++alive; }
+	Mgr(Mgr&& m) noexcept : ar(m.ar), tag(m.tag) { ++alive; if (g_markMovedFrom) m.tag = -1; }
+	Mgr(const Mgr& m) noexcept : ar(m.ar), tag(m.tag) { ++alive; }
+	~Mgr() noexcept { --alive; }
+	static inline long alive = 0;		// manager objects in existence (edge suite: a failed constructor must destroy its manager)
 	Mgr& operator=(const Mgr&) = delete;
 	void* Allocate(size_t size) { return ar->allocate(size, tag); }
 	void Deallocate(void* ptr, size_t size) noexcept { ar->deallocate(ptr, size, tag); }
@@ -1422,7 +1423,584 @@ static void runU32(Ctx& c, Rng& rng)
 	runU32N<64>(c, rng, s, count, length);
 }
 
-// (parts 5 and 6: the world suite and the u32 suite above.)
+// ------------------------------------------------------------------------------------------------ edge suites (part 7)
+// Corners of MemPool.h that the random histories do not reach: DeallocateIf on a pool without a live block (fresh pool, every block
+// freed - with and without cached free blocks -, after DeallocateAll), MergeFrom(self), the four MOMO_CHECKs of MergeFrom and the
+// checks of pvCheckParams under CheckMode::exception, the default constructor, the const GetMemManager, the constructor of
+// MemPoolUInt32. The pool type has RUN-TIME parameters (block size, alignment, blocks per buffer, cache size), so that two pools of
+// the same C++ type can differ in each of them and illegal sets reach pvCheckParams (MemPoolParams normalises the block size and
+// fixes the block count at compile time). Model engines: poolworld (ops new / alloc / free / dif / dall / mergex / destroy /
+// params / sizemax) for the suite `edge`, poolu32 (op ctor) for the suite `u32edge`.
+
+struct RtParams {
+	size_t blockSize, blockAlignment, blockCount, cachedFreeBlockCount;
+	explicit RtParams(size_t s, size_t a, size_t n, size_t cch) noexcept : blockSize(s), blockAlignment(a), blockCount(n), cachedFreeBlockCount(cch) {}
+};
+struct ExcSettings : public momo::MemPoolSettings {
+	static const momo::CheckMode checkMode = momo::CheckMode::exception;
+	static const momo::ExtraCheckMode extraCheckMode = momo::ExtraCheckMode::assertion;
+};
+typedef momo::MemPool<RtParams, Mgr, ExcSettings> RtPool;
+
+// a default-constructible manager (tag 9) for MemPool() / MemPool(MemManager)
+class DefMgr : public Mgr { public: DefMgr() noexcept : Mgr(&g_arena, 9) {} };
+typedef momo::MemPool<momo::MemPoolParamsStatic<24, 8, 4, 2>, DefMgr, ExcSettings> DefPool;
+
+// The legal parameter sets of the property ("every legal block size, alignment, blocks per buffer"), written independently of
+// pvCheckParams: 1 <= blockCount <= 127, 1 <= alignment <= 1024, blockSize >= 1 and - when a buffer holds more than one block -
+// blockSize a multiple of the alignment and at least twice the alignment. A legal set whose blockCount blocks do not fit into
+// size_t is refused with length_error. kind: 0 = constructs, 1 = invalid_argument, 2 = length_error.
+static const char* paramsVerdict(size_t S, size_t A, size_t N, int& kind)
+{
+	kind = 1;
+	if (N < 1 || N > 127) return "block_count";
+	if (A < 1 || A > 1024) return "alignment";
+	if (S < 1) return "size_zero";
+	if (N > 1 && S % A != 0) return "not_multiple";
+	if (N > 1 && S < 2 * A) return "ratio";
+	kind = 2;
+	if ((unsigned __int128)S * N > (unsigned __int128)SIZE_MAX) return "overflow";
+	kind = 0;
+	return "legal";
+}
+
+struct Edge {
+	template<typename Pool> struct Obj { int id = 0; std::unique_ptr<Pool> pool; std::vector<UserBlock> blocks; };
+	struct Snap { std::string digest; size_t count, S, A, N; int tag; std::map<size_t, size_t> ledger; uint64_t requests, frees; };
+
+	Ctx& c; Rng& rng; Suite& s; Arena& ar;
+	std::map<long long, size_t> allLive;	// rel -> block size
+	uint32_t nextTag = 1;
+	int nextId = 1;
+	std::string scen;
+	bool broken = false;	// a pool misbehaved in a way after which the objects of the scenario cannot be used any more
+
+	Edge(Ctx& c_, Rng& rng_, Suite& s_) : c(c_), rng(rng_), s(s_), ar(g_arena) {}
+
+	static uint8_t pat(uint32_t tag, size_t j) { return (uint8_t)(tag * 131u + j * 7u + 1u); }
+	void guard(bool on) {
+#if defined(__SANITIZE_ADDRESS__)
+		for (auto& kv : allLive) { if (on) VF_POISON(ar.mem + kv.first, kv.second); else VF_UNPOISON(ar.mem + kv.first, kv.second); }
+#else
+		(void)on;
+#endif
+	}
+	template<typename Pool> static size_t bufSizeOf(Pool& p) {
+		return p.GetBlockCount() > 1 ? p.pvGetBufferSize() : (p.pvGetAlignmentAddend() == 0 ? p.pvGetBufferSize0() : p.pvGetBufferSize1());
+	}
+	template<typename Pool> std::string digest(Pool& pool) {
+		std::vector<long long> cache, pre, post;
+		void* cb = pool.mCacheHead;
+		for (size_t i = 0; i < pool.mCachedCount && i < 100000; ++i) { cache.push_back(ar.rel(cb)); cb = momo::internal::MemCopyer::FromBuffer<void*>(cb); }
+		if (pool.mFreeBufferHead != nullptr) {
+			size_t steps = 0;
+			for (Byte* b = pool.pvGetPrevBuffer(pool.mFreeBufferHead); b != nullptr && steps++ < 100000; b = pool.pvGetPrevBuffer(b)) pre.push_back(ar.rel(b));
+			for (Byte* b = pool.mFreeBufferHead; b != nullptr && steps++ < 100000; b = pool.pvGetNextBuffer(b)) post.push_back(ar.rel(b));
+			if (steps >= 100000) { c.fail("C09 list: edge %s buffer list is cyclic", scen.c_str()); broken = true; }
+		}
+		return fmt("S=%zu A=%zu mgr=%d n=%zu c=[", pool.GetBlockSize(), pool.GetBlockAlignment(), pool.GetMemManager().tag, pool.GetAllocateCount())
+			+ joinRel(cache) + "] pre=[" + joinRel(pre) + "] post=[" + joinRel(post) + "]";
+	}
+	template<typename Pool> Snap snap(Pool& pool) {
+		return Snap{ digest(pool), pool.GetAllocateCount(), pool.GetBlockSize(), pool.GetBlockAlignment(), pool.GetBlockCount(), pool.GetMemManager().tag, ar.live, ar.requests, ar.frees };
+	}
+	// everything the property says stays as it was: parameters, manager, count, buffers, cache, the manager's ledger
+	template<typename Pool> void checkUnchanged(Obj<Pool>& o, const Snap& before, const char* what) {
+		Pool& pool = *o.pool;
+		if (pool.GetAllocateCount() != before.count) c.fail("C09 %s: edge %s pool %d allocated count %zu became %zu", what, scen.c_str(), o.id, before.count, pool.GetAllocateCount());
+		if (pool.GetBlockSize() != before.S || pool.GetBlockAlignment() != before.A || pool.GetBlockCount() != before.N || pool.GetMemManager().tag != before.tag)
+			c.fail("C09 %s: edge %s pool %d parameters / manager (S=%zu A=%zu N=%zu mgr=%d) became (S=%zu A=%zu N=%zu mgr=%d)", what, scen.c_str(), o.id,
+				before.S, before.A, before.N, before.tag, pool.GetBlockSize(), pool.GetBlockAlignment(), pool.GetBlockCount(), pool.GetMemManager().tag);
+		if (ar.requests != before.requests || ar.frees != before.frees || ar.live != before.ledger)
+			c.fail("C09 %s: edge %s pool %d the memory manager was called (%llu requests, %llu frees)", what, scen.c_str(), o.id,
+				(unsigned long long)(ar.requests - before.requests), (unsigned long long)(ar.frees - before.frees));
+		std::string now = digest(pool);
+		if (now != before.digest) c.fail("C09 %s: edge %s pool %d changed from {%s} to {%s}", what, scen.c_str(), o.id, before.digest.c_str(), now.c_str());
+	}
+	template<typename Pool> void checkObj(Obj<Pool>& o, const char* when) {
+		Pool& pool = *o.pool;
+		if (pool.GetAllocateCount() != o.blocks.size())
+			c.fail("C09 count: edge %s pool %d reports %zu allocated blocks, %zu are live (%s)", scen.c_str(), o.id, pool.GetAllocateCount(), o.blocks.size(), when);
+		const size_t S = pool.GetBlockSize();
+		for (auto& ub : o.blocks) {
+			const uint8_t* p = ar.mem + ub.rel;
+			for (size_t j = 0; j < S; ++j)
+				if (p[j] != pat(ub.tag, j)) { c.fail("C09 live block overwritten: edge %s pool %d block arena+%lld byte %zu (%s)", scen.c_str(), o.id, ub.rel, j, when); break; }
+		}
+	}
+	// tells the model about a pool that exists
+	template<typename Pool> void announce(Obj<Pool>& o) {
+		Pool& pool = *o.pool;
+		o.id = nextId++;
+		s.op(fmt("new %d %zu %zu %zu %zu %d", o.id, pool.GetBlockSize(), pool.GetBlockAlignment(), pool.GetBlockCount(), (size_t)pool.cachedFreeBlockCount, pool.GetMemManager().tag));
+		s.res("legal=1 | " + digest(pool));
+	}
+	void newRt(Obj<RtPool>& o, size_t S, size_t A, size_t N, size_t C, int tag) {
+		o.pool.reset(new RtPool(RtParams(S, A, N, C), Mgr(&ar, tag)));
+		announce(o);
+	}
+	template<typename Pool> void alloc(Obj<Pool>& o) {
+		Pool& pool = *o.pool;
+		const size_t S = pool.GetBlockSize(), A = pool.GetBlockAlignment(), g = allocAlignOf(A), bufSize = bufSizeOf(pool);
+		const size_t window = std::min<size_t>(Arena::arenaSize - 4096, 65536 + bufSize * 64);
+		ar.answers.clear();
+		long long a1 = chooseFree(ar, rng, g, bufSize, 0, window);
+		if (a1 < 0) { c.fail("harness: no free address in the window"); a1 = 0; }
+		ar.live[(size_t)a1] = bufSize; long long a2 = chooseFree(ar, rng, g, bufSize, 0, window); ar.live.erase((size_t)a1);
+		ar.answers.push_back(a1); ar.answers.push_back(a2);
+		guard(true);
+		void* blk = pool.Allocate();
+		guard(false);
+		std::string ev = ar.takeEvents();
+		long long r = ar.rel(blk);
+		s.op(fmt("alloc %d %lld %lld", o.id, a1, a2));
+		s.res(std::to_string(r) + " | " + ev + " | " + digest(pool));
+		if ((uintptr_t)blk % A != 0) c.fail("C09 alignment: edge %s pool %d Allocate returned arena+%lld", scen.c_str(), o.id, r);
+		if (r < 0 || ar.owner((size_t)r, S) == ar.live.end()) c.fail("C09 inside: edge %s pool %d block [%lld,%lld) is not inside memory obtained from a manager", scen.c_str(), o.id, r, r + (long long)S);
+		auto nx = allLive.lower_bound(r);
+		if (nx != allLive.end() && nx->first < r + (long long)S) c.fail("C09 disjoint: edge %s pool %d block arena+%lld overlaps live block arena+%lld", scen.c_str(), o.id, r, nx->first);
+		if (nx != allLive.begin()) { auto pv = std::prev(nx); if (pv->first + (long long)pv->second > r) c.fail("C09 disjoint: edge %s pool %d block arena+%lld overlaps live block arena+%lld", scen.c_str(), o.id, r, pv->first); }
+		UserBlock ub{ r, nextTag++ };
+		uint8_t* p = ar.mem + ub.rel; for (size_t j = 0; j < S; ++j) p[j] = pat(ub.tag, j);
+		o.blocks.push_back(ub);
+		allLive[r] = S;
+		checkObj(o, "after Allocate");
+		c.stats.count("edge.op.alloc");
+	}
+	template<typename Pool> void freeAt(Obj<Pool>& o, size_t i) {
+		Pool& pool = *o.pool;
+		checkObj(o, "before Deallocate");
+		UserBlock ub = o.blocks[i];
+		o.blocks[i] = o.blocks.back(); o.blocks.pop_back();
+		allLive.erase(ub.rel);
+		guard(true);
+		pool.Deallocate(ar.mem + ub.rel);
+		guard(false);
+		std::string ev = ar.takeEvents();
+		s.op(fmt("free %d %lld", o.id, ub.rel));
+		s.res("ok | " + ev + " | " + digest(pool));
+		checkObj(o, "after Deallocate");
+		c.stats.count("edge.op.free");
+	}
+	template<typename Pool> void freeAll(Obj<Pool>& o) { while (!o.blocks.empty() && !broken) freeAt(o, (size_t)rng.below(o.blocks.size())); }
+	// DeallocateIf with a filter that counts its calls; `all`: the filter says yes to whatever it is asked about. Returns the calls.
+	template<typename Pool> size_t dif(Obj<Pool>& o, std::set<long long> sel, bool all) {
+		Pool& pool = *o.pool;
+		checkObj(o, "before DeallocateIf");
+		if (all) for (auto& ub : o.blocks) sel.insert(ub.rel);
+		std::string opLine = "dif " + std::to_string(o.id);
+		for (long long r : sel) { opLine += ' '; opLine += std::to_string(r); }
+		std::vector<UserBlock> kept;
+		for (auto& ub : o.blocks) { if (sel.count(ub.rel)) allLive.erase(ub.rel); else kept.push_back(ub); }
+		std::vector<long long> asked;
+		size_t calls = 0;
+		guard(true);
+		pool.DeallocateIf([&](void* p) { ++calls; long long r = ar.rel(p); asked.push_back(r); return all || sel.count(r) > 0; });
+		guard(false);
+		std::string ev = ar.takeEvents();
+		s.op(opLine);
+		s.res("[" + joinRel(asked) + "] | " + ev + " | " + digest(pool));
+		std::vector<long long> a2 = asked, want;
+		for (auto& ub : o.blocks) want.push_back(ub.rel);
+		std::sort(a2.begin(), a2.end()); std::sort(want.begin(), want.end());
+		if (a2 != want) c.fail("C09 DeallocateIf: edge %s pool %d filter asked about %zu blocks, %zu are live", scen.c_str(), o.id, a2.size(), want.size());
+		o.blocks = kept;
+		checkObj(o, "after DeallocateIf");
+		c.stats.count("edge.op.dif");
+		return calls;
+	}
+	template<typename Pool> void dall(Obj<Pool>& o) {
+		for (auto& ub : o.blocks) allLive.erase(ub.rel);
+		o.blocks.clear();
+		guard(true);
+		o.pool->DeallocateAll();
+		guard(false);
+		std::string ev = ar.takeEvents();
+		s.op(fmt("dall %d", o.id)); s.res("ok | " + ev + " | " + digest(*o.pool));
+		checkObj(o, "after DeallocateAll");
+		c.stats.count("edge.op.dall");
+	}
+	template<typename Pool> void destroy(Obj<Pool>& o) {
+		if (broken) { abandon(o); return; }
+		freeAll(o);
+		guard(true);
+		o.pool.reset();
+		guard(false);
+		std::string ev = ar.takeEvents();
+		s.op(fmt("destroy %d", o.id)); s.res("ok | " + ev + " | store=0 singles=0");
+		c.stats.count("edge.op.destroy");
+	}
+	// after a reported failure that leaves a pool in an unknown state: do not run its code any more
+	template<typename Pool> void abandon(Obj<Pool>& o) {
+		for (auto& ub : o.blocks) allLive.erase(ub.rel);
+		o.blocks.clear();
+		static std::vector<void*>* graveyard = new std::vector<void*>();		// stays reachable: not a leak of the harness
+		graveyard->push_back(o.pool.release());
+	}
+	void endScenario() {
+		if (broken) { ar.forgetAll(); ar.takeEvents(); allLive.clear(); return; }
+		if (!ar.live.empty()) {
+			c.fail("C09 returned: edge %s after all pools were destroyed the managers still hold %zu allocations (first arena+%zu)", scen.c_str(), ar.live.size(), ar.live.begin()->first);
+			ar.forgetAll();
+		}
+		if (!allLive.empty()) { c.fail("harness: edge %s lost track of %zu blocks", scen.c_str(), allLive.size()); allLive.clear(); }
+		ar.checkCanary(0, 4 << 20, "end of edge scenario");
+		c.stats.evaluations++;
+	}
+
+	// MergeFrom under CheckMode::exception. expect: 0 = merges, 1 = the pools differ: std::invalid_argument and nothing changes
+	void mergex(Obj<RtPool>& a, Obj<RtPool>& b, int expect, const char* why) {
+		const bool self = (&a == &b);
+		const int failuresBefore = c.failures;
+		Snap sa = snap(*a.pool), sb = snap(*b.pool);
+		int outcome = 0;
+		guard(true);
+		try { a.pool->MergeFrom(*b.pool); }
+		catch (const std::invalid_argument&) { outcome = 1; }
+		catch (...) { outcome = 2; }
+		guard(false);
+		std::string ev = ar.takeEvents();
+		s.op(fmt("mergex %d %d", a.id, b.id));
+		s.res(std::string(outcome == 0 ? "ok" : outcome == 1 ? "E:invalid_argument" : "E:other") + " | " + ev + " | " + digest(*a.pool) + " || " + digest(*b.pool));
+		if (outcome != expect) {
+			c.fail("C09 MergeFrom: edge %s pool %d {%s} MergeFrom pool %d {%s} (%s): %s, expected %s", scen.c_str(), a.id, sa.digest.c_str(), b.id, sb.digest.c_str(), why,
+				outcome == 0 ? "no exception" : outcome == 1 ? "std::invalid_argument" : "another exception", expect == 0 ? "a merge" : "std::invalid_argument");
+			broken = true;
+			return;
+		}
+		if (self || expect == 1) {
+			checkUnchanged(a, sa, self ? "MergeFrom(self)" : "refused MergeFrom");
+			if (!self) checkUnchanged(b, sb, "refused MergeFrom (argument)");
+		}
+		else {
+			for (auto& ub : b.blocks) a.blocks.push_back(ub);
+			b.blocks.clear();
+		}
+		checkObj(a, "after MergeFrom"); if (!self) checkObj(b, "after MergeFrom (argument)");
+		if (c.failures != failuresBefore) broken = true;
+		c.stats.count(self ? "edge.merge.self" : expect == 1 ? std::string("edge.merge.refused.") + why : std::string("edge.merge.accepted"));
+	}
+
+	// fills a pool: `count` blocks, then `drop` of them freed again (cached free blocks when the pool caches)
+	void fill(Obj<RtPool>& o, size_t count, size_t drop) {
+		for (size_t i = 0; i < count && !broken; ++i) alloc(o);
+		for (size_t i = 0; i < drop && !o.blocks.empty() && !broken; ++i) freeAt(o, (size_t)rng.below(o.blocks.size()));
+	}
+
+	// ---- item 1: DeallocateIf on a pool without a live block
+	void scenarioDifEmpty(size_t S, size_t A, size_t N, size_t C) {
+		scen = fmt("dif-empty S=%zu A=%zu N=%zu C=%zu", S, A, N, C);
+		s.comment(scen);
+		Obj<RtPool> o;
+		newRt(o, S, A, N, C, 1);
+		auto expectNoCall = [&](const char* state) {
+			uint64_t reqBefore = ar.requests;
+			size_t heldBefore = ar.live.size();
+			size_t calls = dif(o, {}, true);
+			if (calls != 0) c.fail("C09 DeallocateIf: edge %s (%s) the filter was called %zu times although no block is live", scen.c_str(), state, calls);
+			if (o.pool->GetAllocateCount() != 0) c.fail("C09 count: edge %s (%s) DeallocateIf on a pool without live blocks reports %zu allocated blocks", scen.c_str(), state, o.pool->GetAllocateCount());
+			if (ar.requests != reqBefore || ar.live.size() > heldBefore) c.fail("C09 ledger: edge %s (%s) DeallocateIf on a pool without live blocks asked the manager for memory", scen.c_str(), state);
+			c.stats.count(std::string("edge.dif_empty.") + state);
+			if (ar.live.size() < heldBefore) c.stats.count("edge.dif_empty.flush_returned_buffers", heldBefore - ar.live.size());
+		};
+		expectNoCall("fresh");
+		// every block freed again through Deallocate: without a cache one (entirely free) buffer stays, with a cache the last
+		// min(C, count) blocks sit in the cache and DeallocateIf has to flush them before it looks at the count
+		size_t count = N + 1 + (size_t)rng.below(2 * N + 2);
+		fill(o, count, count);
+		const bool cached = o.pool->mCachedCount > 0;
+		expectNoCall(cached ? "all_freed_cached" : (o.pool->mFreeBufferHead != nullptr ? "all_freed_buffer_kept" : "all_freed_no_buffer"));
+		if (o.pool->mCachedCount != 0) c.fail("C09 DeallocateIf: edge %s %zu cached free blocks survive DeallocateIf", scen.c_str(), o.pool->mCachedCount);
+		// the pool is usable afterwards: Allocate (aligned, inside, disjoint), a DeallocateIf that does select, again without a live block
+		fill(o, N + 2, 0);
+		std::set<long long> sel;
+		for (auto& ub : o.blocks) if (rng.chance(1, 2)) sel.insert(ub.rel);
+		dif(o, sel, false);
+		dif(o, {}, true);		// frees the rest through DeallocateIf
+		expectNoCall("after_dif_freed_all");
+		fill(o, N + 1, 1);
+		dall(o);
+		expectNoCall("after_deallocate_all");
+		fill(o, 2, 1);
+		destroy(o);
+		endScenario();
+		c.stats.nontrivial("edge " + scen);
+		c.stats.sample("edge " + scen + fmt(": DeallocateIf without a live block on a fresh pool, after %zu blocks were freed (%s), after DeallocateIf freed all, after DeallocateAll: filter never called", count, cached ? "cached free blocks flushed" : "one free buffer kept"), 3);
+	}
+
+	// ---- item 2a: MergeFrom(self)
+	void scenarioSelfMerge(size_t S, size_t A, size_t N, size_t C, bool severalBuffers) {
+		scen = fmt("self-merge S=%zu A=%zu N=%zu C=%zu %s", S, A, N, C, severalBuffers ? "several buffers" : "one buffer");
+		s.comment(scen);
+		Obj<RtPool> o;
+		newRt(o, S, A, N, C, 1);
+		mergex(o, o, 0, "self, empty");
+		if (!broken) {
+			if (severalBuffers) fill(o, 3 * N + 2, N + 1);		// buffers before and behind the head, cached free blocks
+			else fill(o, N > 1 ? N - 1 : 1, N > 2 ? 1 : 0);
+			if (o.pool->mFreeBufferHead != nullptr && o.pool->pvGetPrevBuffer(o.pool->mFreeBufferHead) != nullptr) c.stats.count("edge.merge.self.full_buffers_before_head");
+			if (o.pool->mCachedCount > 0) c.stats.count("edge.merge.self.cached_blocks");
+		}
+		if (!broken) mergex(o, o, 0, "self");
+		// every live block is still the pool's: each one is given back on its own
+		if (!broken) freeAll(o);
+		if (!broken) { fill(o, 2, 0); mergex(o, o, 0, "self, again"); }
+		destroy(o);
+		endScenario();
+		c.stats.nontrivial("edge " + scen);
+	}
+
+	// ---- item 2b: the MOMO_CHECKs of MergeFrom: two pools of one C++ type that differ in ONE respect
+	void scenarioMergeRefused(const char* why, size_t S1, size_t A1, size_t N1, int tag1, size_t S2, size_t A2, size_t N2, int tag2, size_t C) {
+		scen = fmt("merge-refused(%s) (S=%zu A=%zu N=%zu mgr=%d) / (S=%zu A=%zu N=%zu mgr=%d) C=%zu", why, S1, A1, N1, tag1, S2, A2, N2, tag2, C);
+		s.comment(scen);
+		Obj<RtPool> a, b, a2;
+		newRt(a, S1, A1, N1, C, tag1);
+		newRt(b, S2, A2, N2, C, tag2);
+		mergex(a, b, 1, why);			// both empty
+		if (!broken) { fill(a, 2 * N1 + 1 + (size_t)rng.below(3), (size_t)rng.below(N1 + 1)); fill(b, 2 * N2 + 1 + (size_t)rng.below(3), (size_t)rng.below(N2 + 1)); }
+		if (!broken) mergex(a, b, 1, why);
+		if (!broken) mergex(b, a, 1, why);
+		// both pools still work: allocate, a legal merge with an equal pool, every block freeable on its own
+		if (!broken) { alloc(a); alloc(b); }
+		if (!broken) { newRt(a2, S1, A1, N1, C, tag1); fill(a2, N1 + 1, 1); mergex(a, a2, 0, "equal"); }
+		if (!broken) mergex(b, a, 1, why);
+		if (!broken) { freeAll(a); freeAll(b); }
+		destroy(a2); destroy(b); destroy(a);
+		endScenario();
+		c.stats.nontrivial("edge " + scen);
+		if (C == 0) c.stats.sample("edge " + scen + ": std::invalid_argument in both directions, both pools unchanged and usable", 8);
+	}
+
+	// ---- item 3: pvCheckParams
+	void tryParams(size_t S, size_t A, size_t N, size_t C, bool use) {
+		int kind = 0;
+		const char* why = paramsVerdict(S, A, N, kind);
+		scen = fmt("params S=%zu A=%zu N=%zu C=%zu", S, A, N, C);
+		const long aliveBefore = Mgr::alive;
+		const uint64_t reqBefore = ar.requests, freesBefore = ar.frees;
+		const size_t heldBefore = ar.live.size();
+		int outcome = 0;
+		Obj<RtPool> o;
+		try { o.pool.reset(new RtPool(RtParams(S, A, N, C), Mgr(&ar, 1))); }
+		catch (const std::invalid_argument&) { outcome = 1; }
+		catch (const std::length_error&) { outcome = 2; }
+		catch (...) { outcome = 3; }
+		static const char* const names[4] = { "ok", "E:invalid_argument", "E:length", "E:other" };
+		s.op(fmt("params %zu %zu %zu", S, A, N));
+		s.res(names[outcome]);
+		if (outcome != kind)
+			c.fail("C09 params: MemPool(blockSize=%zu, blockAlignment=%zu, blockCount=%zu) gives %s, the set is %s: expected %s", S, A, N, names[outcome], why, names[kind]);
+		if (ar.requests != reqBefore || ar.frees != freesBefore || ar.live.size() != heldBefore || !ar.events.empty())
+			c.fail("C09 params: the constructor MemPool(blockSize=%zu, blockAlignment=%zu, blockCount=%zu) called the memory manager (%s)", S, A, N, names[outcome]);
+		ar.takeEvents();
+		if (outcome != 0) {
+			if (Mgr::alive != aliveBefore)
+				c.fail("C09 params: after the failed construction MemPool(blockSize=%zu, blockAlignment=%zu, blockCount=%zu) %ld memory manager objects are left over", S, A, N, Mgr::alive - aliveBefore);
+			c.stats.count(std::string("edge.params.refused.") + why);
+		}
+		else {
+			RtPool& pool = *o.pool;
+			const RtPool& cpool = pool;
+			if (Mgr::alive != aliveBefore + 1) c.fail("C09 params: %s: %ld memory manager objects instead of the pool's one", scen.c_str(), Mgr::alive - aliveBefore);
+			if (pool.GetBlockSize() != S || pool.GetBlockAlignment() != A || pool.GetBlockCount() != N || pool.GetAllocateCount() != 0 || cpool.GetParams().cachedFreeBlockCount != C)
+				c.fail("C09 params: %s: the new pool reports S=%zu A=%zu N=%zu count=%zu", scen.c_str(), pool.GetBlockSize(), pool.GetBlockAlignment(), pool.GetBlockCount(), pool.GetAllocateCount());
+			// const GetMemManager (272): the pool's own manager object
+			if (&cpool.GetMemManager() != &pool.GetMemManager() || &cpool.GetMemManager() != static_cast<const Mgr*>(&pool.mData) || cpool.GetMemManager().tag != 1 || cpool.GetMemManager().ar != &ar)
+				c.fail("C09 manager: %s: the const GetMemManager() is not the manager the pool holds", scen.c_str());
+			c.stats.count("edge.params.constructed");
+			if (kind == 0 && use && (unsigned __int128)S * N <= 40000) {
+				announce(o);
+				fill(o, N + 1 + (size_t)rng.below(N + 1), 1);
+				if (N > 1 && rng.chance(1, 2)) dif(o, {}, true);
+				destroy(o);
+				if (!ar.live.empty()) { c.fail("C09 returned: %s after destruction the manager still holds %zu allocations", scen.c_str(), ar.live.size()); ar.forgetAll(); }
+				c.stats.count("edge.params.constructed_and_used");
+			}
+			else {
+				o.pool.reset();
+				if (!ar.events.empty()) { c.fail("C09 params: %s: the destructor of an unused pool called the memory manager", scen.c_str()); ar.takeEvents(); }
+			}
+			if (Mgr::alive != aliveBefore) c.fail("C09 params: %s: %ld memory manager objects are left over after destruction", scen.c_str(), Mgr::alive - aliveBefore);
+		}
+		c.stats.nontrivial(fmt("params %zu/%zu/%zu", S, A, N));
+		c.stats.evaluations++;
+	}
+
+	void sweepParams() {
+		s.comment("params sweep");
+		s.op("sizemax"); s.res(fmt("%zu", (size_t)momo::internal::UIntConst::maxSize));
+		static const size_t Ns[] = { 0, 1, 2, 3, 5, 64, 126, 127, 128, 129, 255, 256, 65536, SIZE_MAX };
+		static const size_t As[] = { 0, 1, 2, 3, 4, 7, 8, 16, 24, 100, 512, 1000, 1023, 1024, 1025, 2048, 65536, size_t{1} << 63, SIZE_MAX };
+		unsigned caseNo = 0;
+		for (size_t N : Ns) for (size_t A : As) {
+			std::set<size_t> Ss;
+			auto add = [&](unsigned __int128 v) { if (v <= (unsigned __int128)SIZE_MAX) Ss.insert((size_t)v); };
+			for (size_t v : { size_t{0}, size_t{1}, size_t{2}, size_t{7}, size_t{8}, size_t{9}, SIZE_MAX, SIZE_MAX - 1, size_t{1} << 63, (size_t{1} << 63) - 1 }) add(v);
+			if (A > 0) for (unsigned k = 1; k <= 5; ++k) { unsigned __int128 m = (unsigned __int128)A * k; add(m - 1); add(m); add(m + 1); }
+			if (N > 0) {
+				const size_t M = SIZE_MAX / N;		// the largest block size whose N blocks fit into size_t
+				add(M); add((unsigned __int128)M + 1); if (M > 0) add(M - 1);
+				if (A > 0) { const size_t f = M / A * A; add(f); add((unsigned __int128)f + A); add((unsigned __int128)f + 1); if (f >= A) add(f - A); }
+			}
+			for (size_t S : Ss) { tryParams(S, A, N, (caseNo % 3 == 0) ? 0 : (caseNo % 3 == 1) ? 2 : 16, caseNo % 4 == 0); ++caseNo; }
+		}
+		// random sets around the borders
+		const unsigned extra = c.thorough ? 20000 : 2000;
+		for (unsigned i = 0; i < extra; ++i) {
+			size_t N = rng.chance(3, 4) ? (size_t)rng.range(0, 130) : (size_t)rng.biased(64);
+			size_t A = rng.chance(3, 4) ? (size_t)rng.range(0, 1030) : (size_t)rng.biased(64);
+			size_t S;
+			switch (rng.below(4)) {
+			case 0: S = A * (size_t)rng.below(6) + (rng.chance(1, 3) ? (size_t)rng.below(3) : 0); break;
+			case 1: S = (N > 0 ? SIZE_MAX / N : SIZE_MAX) - (size_t)rng.below(3) + (size_t)rng.below(3); break;
+			case 2: { size_t M = (N > 0 ? SIZE_MAX / N : SIZE_MAX); S = (A > 0 ? M / A * A : M) + (rng.chance(1, 2) ? A : 0) - (rng.chance(1, 4) ? A : 0); break; }
+			default: S = (size_t)rng.biased(64); break;
+			}
+			tryParams(S, A, N, (size_t)rng.below(3) * 4, rng.chance(1, 4));
+		}
+		c.stats.sample(fmt("edge params: %llu parameter sets constructed (%llu of them used), refused: %llu block count, %llu alignment, %llu size 0, %llu not a multiple, %llu ratio < 2 (invalid_argument), %llu overflow (length_error)",
+			(unsigned long long)c.stats.counters["edge.params.constructed"], (unsigned long long)c.stats.counters["edge.params.constructed_and_used"],
+			(unsigned long long)c.stats.counters["edge.params.refused.block_count"], (unsigned long long)c.stats.counters["edge.params.refused.alignment"],
+			(unsigned long long)c.stats.counters["edge.params.refused.size_zero"], (unsigned long long)c.stats.counters["edge.params.refused.not_multiple"],
+			(unsigned long long)c.stats.counters["edge.params.refused.ratio"], (unsigned long long)c.stats.counters["edge.params.refused.overflow"]), 12);
+	}
+
+	// ---- MemPool() (190) and MemPool(MemManager) (195) of a pool with static parameters and a default-constructible manager
+	void scenarioDefaultCtor() {
+		scen = "default constructor";
+		s.comment(scen);
+		const long aliveBefore = Mgr::alive;
+		{
+			Obj<DefPool> o, o2;
+			o.pool.reset(new DefPool());
+			const DefPool& cp = *o.pool;
+			if (cp.GetMemManager().tag != 9 || cp.GetMemManager().ar != &g_arena || &cp.GetMemManager() != &o.pool->GetMemManager() || Mgr::alive != aliveBefore + 1)
+				c.fail("C09 manager: MemPool() does not hold one default-constructed memory manager (tag %d, %ld objects)", cp.GetMemManager().tag, Mgr::alive - aliveBefore);
+			if (cp.GetBlockSize() != 24 || cp.GetBlockAlignment() != 8 || cp.GetBlockCount() != 4 || cp.GetAllocateCount() != 0)
+				c.fail("C09 params: MemPool() of MemPoolParamsStatic<24, 8, 4, 2> reports S=%zu A=%zu N=%zu count=%zu", cp.GetBlockSize(), cp.GetBlockAlignment(), cp.GetBlockCount(), cp.GetAllocateCount());
+			announce(o);
+			for (int i = 0; i < 7; ++i) alloc(o);
+			o2.pool.reset(new DefPool(DefMgr()));
+			if (o2.pool->GetMemManager().tag != 9 || Mgr::alive != aliveBefore + 2) c.fail("C09 manager: MemPool(MemManager) does not hold the manager it was given (%ld objects)", Mgr::alive - aliveBefore);
+			announce(o2);
+			for (int i = 0; i < 5; ++i) alloc(o2);
+			freeAt(o, 0); freeAt(o2, 1);
+			destroy(o2); destroy(o);
+		}
+		if (Mgr::alive != aliveBefore) c.fail("C09 manager: %ld memory manager objects are left over after the default-constructed pools", Mgr::alive - aliveBefore);
+		endScenario();
+		c.stats.count("edge.default_ctor");
+	}
+};
+
+static void runEdge(Ctx& c, Rng& rng)
+{
+	Suite s(c, "edge", fmt("model poolworld arena=%llu", (unsigned long long)(uintptr_t)g_arena.mem));
+	g_arena.tagEvents = true; g_markMovedFrom = true;
+	Edge e(c, rng, s);
+	struct Cfg { size_t S, A, N, C; };
+	std::vector<Cfg> cfgs = { { 16, 8, 2, 0 }, { 16, 8, 2, 4 }, { 24, 8, 3, 2 }, { 64, 16, 5, 16 }, { 8, 4, 32, 0 }, { 48, 16, 127, 1 }, { 6, 3, 2, 0 }, { 200, 100, 3, 16 }, { 2048, 1024, 2, 4 } };
+	const unsigned extra = c.thorough ? 60 : 10;
+	static const size_t countsN[] = { 2, 3, 5, 32, 127 }, caches[] = { 0, 1, 4, 16 };
+	for (unsigned i = 0; i < extra; ++i) {
+		size_t N = countsN[rng.below(5)], C = caches[rng.below(4)];
+		size_t A = rng.chance(1, 2) ? (size_t{1} << rng.below(8)) : (size_t)rng.range(1, N > 32 ? 64 : 300);
+		size_t S = A * (size_t)rng.range(2, 5);
+		cfgs.push_back({ S, A, N, C });
+	}
+	// item 2a first with a single buffer: a MergeFrom(self) that is not a no-op is reported before it can run away
+	for (auto& k : cfgs) { if (e.broken) break; e.scenarioSelfMerge(k.S, k.A, k.N, k.C, false); }
+	for (auto& k : cfgs) { if (e.broken) break; e.scenarioSelfMerge(k.S, k.A, k.N, k.C, true); }
+	for (size_t C : { size_t{0}, size_t{4} }) {			// single-block pools: MergeFrom(self) too
+		if (e.broken) break;
+		e.scenarioSelfMerge(40, 8, 1, C, false); e.scenarioSelfMerge(24, 32, 1, C, true);
+	}
+	for (auto& k : cfgs) { if (e.broken) break; e.scenarioDifEmpty(k.S, k.A, k.N, k.C); }
+	for (size_t C : { size_t{0}, size_t{3} }) {
+		if (e.broken) break;
+		e.scenarioMergeRefused("block_size", 16, 8, 2, 1, 24, 8, 2, 1, C);
+		e.scenarioMergeRefused("block_size", 64, 16, 5, 1, 32, 16, 5, 1, C);
+		e.scenarioMergeRefused("block_alignment", 32, 8, 3, 1, 32, 16, 3, 1, C);
+		e.scenarioMergeRefused("block_alignment", 48, 24, 2, 1, 48, 8, 2, 1, C);
+		e.scenarioMergeRefused("block_count", 16, 8, 2, 1, 16, 8, 3, 1, C);
+		e.scenarioMergeRefused("block_count", 32, 16, 32, 1, 32, 16, 5, 1, C);
+		e.scenarioMergeRefused("block_count", 16, 8, 1, 1, 16, 8, 2, 1, C);
+		e.scenarioMergeRefused("memory_manager", 16, 8, 2, 1, 16, 8, 2, 2, C);
+		e.scenarioMergeRefused("memory_manager", 40, 8, 1, 2, 40, 8, 1, 1, C);
+		e.scenarioMergeRefused("memory_manager", 96, 32, 5, 1, 96, 32, 5, 2, C);
+	}
+	if (!e.broken) e.scenarioDefaultCtor();
+	if (!e.broken) e.sweepParams();
+	g_arena.tagEvents = false; g_markMovedFrom = false;
+}
+
+// the constructor of MemPoolUInt32 (821-831): blockCount blocks of max(blockSize, 4) bytes must fit into size_t
+template<size_t N>
+static void u32Ctor(Ctx& c, Suite& s, size_t blockSize, size_t maxTotal)
+{
+	typedef momo::internal::MemPoolUInt32<N, Mgr> Pool;
+	Arena& ar = g_arena;
+	const size_t S = std::max(blockSize, sizeof(uint32_t));
+	const bool expectThrow = (unsigned __int128)S * N > (unsigned __int128)SIZE_MAX;
+	const long aliveBefore = Mgr::alive;
+	const uint64_t reqBefore = ar.requests, freesBefore = ar.frees;
+	int outcome = 0;
+	std::unique_ptr<Pool> pool;
+	try { pool.reset(new Pool(blockSize, Mgr(&ar, 0), maxTotal)); }
+	catch (const std::length_error&) { outcome = 1; }
+	catch (...) { outcome = 2; }
+	s.op(fmt("ctor %zu %zu %zu", N, blockSize, maxTotal));
+	if (outcome == 0) s.res(fmt("ok S=%zu maxBuf=%zu", pool->mBlockSize, pool->mMaxBufferCount));
+	else s.res(outcome == 1 ? "E:length" : "E:other");
+	if ((outcome != 0) != expectThrow || outcome == 2)
+		c.fail("C09 u32 params: MemPoolUInt32<%zu>(blockSize=%zu, maxTotalBlockCount=%zu) %s, %zu blocks of %zu bytes %s size_t", N, blockSize, maxTotal,
+			outcome == 0 ? "constructs" : outcome == 1 ? "throws std::length_error" : "throws another exception", N, S, expectThrow ? "do not fit into" : "fit into");
+	if (outcome == 0) {
+		const Pool& cp = *pool;
+		if (&cp.GetMemManager() != &pool->GetMemManager() || &cp.GetMemManager() != &pool->mBuffers.GetMemManager() || cp.GetMemManager().ar != &ar || Mgr::alive != aliveBefore + 1)
+			c.fail("C09 manager: u32 N=%zu blockSize=%zu: the const GetMemManager() is not the one manager the pool holds", N, blockSize);
+		if (pool->mAllocCount != 0 || pool->mBlockHead != Pool::nullPtr || pool->mBuffers.GetCount() != 0)
+			c.fail("C09 u32 params: N=%zu blockSize=%zu: the new pool is not empty", N, blockSize);
+		pool.reset();
+		c.stats.count("u32edge.constructed");
+	}
+	else c.stats.count("u32edge.length_error");
+	if (Mgr::alive != aliveBefore) c.fail("C09 u32 params: N=%zu blockSize=%zu: %ld memory manager objects are left over", N, blockSize, Mgr::alive - aliveBefore);
+	if (ar.requests != reqBefore || ar.frees != freesBefore || !ar.live.empty() || !ar.events.empty()) {
+		c.fail("C09 u32 params: N=%zu blockSize=%zu: constructor / destructor of an unused pool called the memory manager", N, blockSize);
+		ar.takeEvents();
+	}
+	c.stats.nontrivial(fmt("u32ctor %zu/%zu/%zu", N, blockSize, maxTotal));
+	c.stats.evaluations++;
+}
+
+template<size_t N>
+static void u32CtorN(Ctx& c, Rng& rng, Suite& s)
+{
+	const size_t M = SIZE_MAX / N;		// the largest block size that must construct
+	std::set<size_t> sizes = { 0, 1, 3, 4, 5, 48, M, SIZE_MAX, SIZE_MAX - 1, size_t{1} << 63, (size_t{1} << 63) - 1, (size_t{1} << 63) + 1 };
+	if (M > 0) sizes.insert(M - 1);
+	if (M < SIZE_MAX) { sizes.insert(M + 1); sizes.insert(M + 2); }
+	for (unsigned i = 0; i < (c.thorough ? 200u : 20u); ++i) sizes.insert(rng.chance(1, 2) ? M - (size_t)rng.below(1000) + (size_t)rng.below(1000) : (size_t)rng.biased(64));
+	static const size_t totals[] = { 0, 1, 1000, 4000000000u, 4294967294u };
+	unsigned k = 0;
+	for (size_t bs : sizes) u32Ctor<N>(c, s, bs, totals[k++ % 5]);
+}
+
+static void runU32Edge(Ctx& c, Rng& rng)
+{
+	Suite s(c, "u32edge", fmt("model poolu32 arena=%llu", (unsigned long long)(uintptr_t)g_arena.mem));
+	u32CtorN<1>(c, rng, s);
+	u32CtorN<2>(c, rng, s);
+	u32CtorN<3>(c, rng, s);
+	u32CtorN<64>(c, rng, s);
+	u32CtorN<(size_t{1} << 20)>(c, rng, s);
+	u32CtorN<(size_t{1} << 61)>(c, rng, s);			// block sizes 4..7 construct
+	u32CtorN<(size_t{1} << 62) + 1>(c, rng, s);		// no block size constructs
+}
+
+// (parts 5 and 6: the world suite and the u32 suite above; part 7: the edge suites.)
 // The harness is compiled as four executables (registry flags -DC09_PART=1..4) so that the template
 // instantiations compile in parallel: 1 = layout + dll suites, 2 = state suite for blockCount 1 and 2,
 // 3 = blockCount 3 and 5, 4 = blockCount 32 and 127.  Without C09_PART everything runs in one process.
@@ -1467,6 +2045,10 @@ int main(int argc, char** argv)
 #endif
 #if C09_PART == 0 || C09_PART == 6
 	runU32(c, rng);
+#endif
+#if C09_PART == 0 || C09_PART == 7
+	runEdge(c, rng);
+	runU32Edge(c, rng);
 #endif
 	c.stats.count("manager.requests", g_arena.requests);
 	c.stats.count("manager.faults_injected", g_arena.faults);
